@@ -6,6 +6,7 @@ import (
 	"errors"
 	"fmt"
 	"io"
+	"strings"
 	"sync"
 	"testing"
 	"time"
@@ -194,6 +195,7 @@ type c03Args struct {
 	Write   int // write size (0: one write)
 	Faults  []c03Fault
 	CutAt   int // diamond: cut the active first-hop link after this many data packets (0: never)
+	Sibling int // >0: an earlier stream between the same nodes is closed first; a copy of its last datagram is delivered late, after this many bytes of the second stream
 	StallMs int // the link stops taking data (its Send blocks) this long before it is cut: datagrams are caught in mid-forwarding
 	Both    bool
 }
@@ -204,6 +206,9 @@ func (a c03Args) String() string {
 			return fmt.Sprintf("connect bridging size=%d service=%s", a.Size, a.Mode)
 		}
 		return fmt.Sprintf("connect bridging size=%d", a.Size)
+	}
+	if a.Sibling > 0 {
+		return fmt.Sprintf("two streams in a row, late datagram of the first after %d bytes of the second (size %d)", a.Sibling, a.Size)
 	}
 	if a.StallMs > 0 {
 		return fmt.Sprintf("topo=%s size=%d write=%d faults=%v cut=%d stall=%dms both=%v", a.Topo, a.Size, a.Write, a.Faults, a.CutAt, a.StallMs, a.Both)
@@ -253,6 +258,9 @@ func execC03(w *W, raw json.RawMessage) CaseOut {
 		case <-time.After(80 * time.Second):
 			return CaseOut{Viol: []Violation{{Key: "hang:c03-connect", Msg: "connect bridging made no progress for 80 s"}}}
 		}
+	}
+	if a.Sibling > 0 {
+		return execC03Sibling(a)
 	}
 	var out CaseOut
 	out.Nontrivial = true
@@ -447,6 +455,159 @@ func execC03(w *W, raw json.RawMessage) CaseOut {
 	return out
 }
 
+// execC03Sibling: two streams in a row from a to the same service on b. The first one is closed completely; while
+// the second one carries data from b to a, a copy of the last datagram that b had sent for the FIRST stream is
+// delivered late (a duplicate that crossed the close). The second stream is not affected: exact bytes, then EOF.
+func execC03Sibling(a c03Args) CaseOut {
+	var out CaseOut
+	out.Nontrivial = true
+	m := newMesh(defaultConsts, "a", "b")
+	m.realtime = true
+	m.latency = 2 * time.Millisecond
+	m.up("a", "b", 1)
+	for dl := time.Now().Add(10 * time.Second); time.Now().Before(dl); time.Sleep(20 * time.Millisecond) {
+		if _, ok := m.nodes["a"].Status().RoutingTable["b"]; ok {
+			if _, ok := m.nodes["b"].Status().RoutingTable["a"]; ok {
+				break
+			}
+		}
+	}
+	li, err := m.nodes["b"].Listen("echo", nil)
+	if err != nil {
+		out.violate("harness:c03-listen", "%v", err)
+		return out
+	}
+	data := c03Data(a.Size, 7)
+	var srvErr error
+	srvDone := make(chan struct{})
+	go func() {
+		defer close(srvDone)
+		// first stream: short exchange
+		c1, err := li.Accept()
+		if err != nil {
+			srvErr = err
+			return
+		}
+		buf := make([]byte, 5)
+		io.ReadFull(c1, buf)
+		c1.Write([]byte("bye"))
+		c1.Close()
+		// second stream: b sends, paced
+		c2, err := li.Accept()
+		if err != nil {
+			srvErr = err
+			return
+		}
+		for off := 0; off < len(data); off += 1200 {
+			end := off + 1200
+			if end > len(data) {
+				end = len(data)
+			}
+			if _, err := c2.Write(data[off:end]); err != nil {
+				srvErr = fmt.Errorf("write at %d: %v", off, err)
+				return
+			}
+			time.Sleep(300 * time.Microsecond)
+		}
+		c2.Close()
+	}()
+	ctx := a.String()
+	c1, err := m.nodes["a"].Dial("b", "echo", nil)
+	if err != nil {
+		out.violate("harness:c03-dial", "first stream: %v", err)
+		return out
+	}
+	eph := c1.LocalAddr().String()
+	if i := strings.LastIndex(eph, ":"); i >= 0 {
+		eph = eph[i+1:]
+	}
+	var recMu sync.Mutex
+	var rec []byte
+	m.sess["b>a"].tap = func(d []byte) {
+		if h, ok := parseData(d); ok && h.ToSvc == eph {
+			recMu.Lock()
+			rec = append([]byte(nil), d...)
+			recMu.Unlock()
+		}
+	}
+	c1.Write([]byte("hello"))
+	rb := make([]byte, 3)
+	io.ReadFull(c1, rb)
+	c1.Close()
+	c1.CloseConnection()
+	// the first stream's socket on a is gone
+	for dl := time.Now().Add(5 * time.Second); time.Now().Before(dl); time.Sleep(10 * time.Millisecond) {
+		gone := true
+		for _, l := range m.nodes["a"].VerifSnapshot().Listeners {
+			if l == eph {
+				gone = false
+			}
+		}
+		if gone {
+			break
+		}
+	}
+	time.Sleep(50 * time.Millisecond)
+	recMu.Lock()
+	late := rec
+	recMu.Unlock()
+	if late == nil {
+		out.violate("harness:c03-sibling", "no datagram of the first stream was seen on the link")
+		return out
+	}
+	c2, err := m.nodes["a"].Dial("b", "echo", nil)
+	if err != nil {
+		out.violate("harness:c03-dial", "second stream: %v", err)
+		return out
+	}
+	var got []byte
+	injected := false
+	buf := make([]byte, 32768)
+	var rerr error
+	c2.SetReadDeadline(time.Now().Add(60 * time.Second))
+	for {
+		n, err := c2.Read(buf)
+		got = append(got, buf[:n]...)
+		if !injected && len(got) >= a.Sibling {
+			injected = true
+			// the late duplicate arrives at a
+			peer := m.sess["b>a"].peer
+			go func() {
+				select {
+				case peer.in <- append([]byte(nil), late...):
+				case <-peer.closed:
+				}
+			}()
+		}
+		if err != nil {
+			if err != io.EOF {
+				rerr = err
+			}
+			break
+		}
+	}
+	select {
+	case <-srvDone:
+	case <-time.After(30 * time.Second):
+	}
+	if !injected {
+		out.count("late_datagram_not_injected", 1)
+	}
+	if !bytes.Equal(got, data) || rerr != nil {
+		kind := "lost-bytes"
+		if len(got) > len(data) {
+			kind = "extra-bytes"
+		} else if len(got) <= len(data) && !bytes.Equal(got, data[:len(got)]) {
+			kind = "altered-bytes"
+		}
+		out.violate("stream:"+kind+":sibling-late-datagram", "%s: the second stream delivered %d of %d bytes (read error %v, writer error %v) after a late datagram of the closed first stream arrived", ctx, len(got), len(data), rerr, srvErr)
+	} else if srvErr != nil {
+		out.violate("stream:write-failed:sibling-late-datagram", "%s: the writer of the second stream failed: %v", ctx, srvErr)
+	}
+	out.Outcome = fmt.Sprintf("sibling injected=%v", injected)
+	return out
+}
+
 func coordC03(c *Coord) {
 	// (a) bridge and (c) connect bridging run as shard cases
 	c.runShards()
@@ -521,6 +682,10 @@ func coordC03(c *Coord) {
 		if t%4 == 1 {
 			jobs = append(jobs, c03Args{Topo: "diamond", Size: 60000, Write: 1200, Both: true, CutAt: t, StallMs: 300})
 		}
+	}
+	// a late duplicate of a closed earlier stream's datagram arrives while the next stream carries data
+	for _, at := range []int{1, 30000, 150000, 290000} {
+		jobs = append(jobs, c03Args{Topo: "chain2", Size: 300000, Sibling: at})
 	}
 	var wg sync.WaitGroup
 	sem := make(chan struct{}, p.size())
@@ -642,7 +807,7 @@ func init() {
 		ID:        "C03",
 		Level:     "fault_enumeration",
 		Technique: "enumeration of fault positions (drop / duplicate / delay of the i-th datagram of every link direction, link cut after t datagrams with a second path) on real QUIC streams between real nodes over harness links in real time, one process per execution; deviation-bounded DFS over environment answers (short reads, errors, short writes) of the real BridgeConns; the connect command's bridge in a synctest bubble",
-		Rule: "loss-free: sizes {0,1,1200,20000 (thorough 200000)} x write sizes {one write, 7, 1200} x {1,2,3 hops, diamond}, both directions at once with half-close by both sides; single faults {drop, duplicate, +30 ms delay} at every data-packet index < 24 (thorough 60) of every link direction on 1- and 2-hop paths (2 hops quick: even indices); thorough: pairs of faults on a stride-4 grid; cutting the active first-hop link of the diamond after t = 1,3,..,29 (thorough 79) data packets, and for t = 1,5,9,.. additionally with the link stalled (Send blocks) for 300 ms before it is cut, so that datagrams are caught in the middle of being forwarded; bridge: payloads of 0-3 chunks, every answer sequence with <=2 deviations; connect command: the service echoes after end-of-stream, or answers and half-closes before it reads anything and reads 3 s later. " +
+		Rule: "loss-free: sizes {0,1,1200,20000 (thorough 200000)} x write sizes {one write, 7, 1200} x {1,2,3 hops, diamond}, both directions at once with half-close by both sides; single faults {drop, duplicate, +30 ms delay} at every data-packet index < 24 (thorough 60) of every link direction on 1- and 2-hop paths (2 hops quick: even indices); thorough: pairs of faults on a stride-4 grid; cutting the active first-hop link of the diamond after t = 1,3,..,29 (thorough 79) data packets, and for t = 1,5,9,.. additionally with the link stalled (Send blocks) for 300 ms before it is cut, so that datagrams are caught in the middle of being forwarded; two streams in a row between the same nodes, the first closed, a copy of its last datagram delivered late after 1 / 30000 / 150000 / 290000 bytes of the second; bridge: payloads of 0-3 chunks, every answer sequence with <=2 deviations; connect command: the service echoes after end-of-stream, or answers and half-closes before it reads anything and reads 3 s later. " +
 			"Each execution is distinct; non-trivial = a stream was transferred. Oracle: bytes read = bytes written in both directions, end-of-stream after the last byte, completion within 60 s; after a failing side the bridge delivered a prefix.",
 		Assumptions: []string{"QUIC packetisation is not replay-stable: a fault index names the i-th data packet of this run (faults_applied counts the ones that hit)", "real time with a 60 s completion limit (observed transfers: tens of milliseconds)", "the TCP/Unix proxy services are represented by their BridgeConns core"},
 		Run:         runC03,
